@@ -297,6 +297,8 @@ func avsFacts(repo string, emit func(name, leanDef string, err error)) {
 	// small bodies transcribed verbatim by the model (normalised source text)
 	for _, b := range []struct{ fact, file, fn string }{
 		{"avsDifferenceBody", "x/avs/types/types.go", "Difference"},
+		{"avsSubtractBody", "x/avs/types/types.go", "Subtract"},
+		{"avsMinSelfBody", "x/avs/keeper/avs.go", "GetAVSMinimumSelfDelegation"},
 		{"avsTaskIDBody", "x/avs/keeper/task.go", "GetTaskID"},
 		{"avsGroupBody", "x/avs/keeper/task.go", "GroupTasksByIDAndAddress"},
 		{"avsStatDueBody", "x/avs/keeper/avs.go", "GetTaskStatisticalEpochEndAVSs"},
